@@ -15,6 +15,10 @@
     * history: like GNU readline, a history line edited while browsing KEEPS the edit when the user moves on with
       up / down (the code stores the current text into the slot it leaves, also across later getLine calls);
       only enter does not write back.  Empty lines are not added to the history.  Duplicates are kept.
+      (So the history is NOT simply "the lines returned earlier": a slot can hold text that was never returned,
+      even the empty text.  The statement is silent about edits of history lines; the code is explicit.)
+    * nothing is demanded of the screen once getLine has returned (the code erases the prompt and puts the cursor
+      back where it found it), nor while a key is only partly received.
     * tab is ignored.  Escape sequences that are not one of the seven keys (ESC [ A B C D H F, ESC [ 3 ~) are
       ignored as a whole: CSI = ESC [ (digit ; ?)* final(0x40..0x7E), and ESC + one byte 0x30..0x7E that does not
       introduce a longer sequence.
@@ -76,6 +80,8 @@ Classify(u) ==
     ELSE IF n < L THEN "prefix"
     ELSE IF IsPrintCp(DecUnit(u)) THEN "unit" ELSE "bad"
 
+Cls(u8, u) == IF ~u8 /\ u[Len(u)] >= 128 THEN "bad" ELSE Classify(u)
+
 KeyOf(u) == CASE u = <<13>> -> "enter" [] u = <<9>> -> "tab" [] u = <<8>> -> "bs" [] u = <<127>> -> "bs"
               [] u = <<27, 91, 65>> -> "up" [] u = <<27, 91, 66>> -> "down" [] u = <<27, 91, 67>> -> "right"
               [] u = <<27, 91, 68>> -> "left" [] u = <<27, 91, 72>> -> "home" [] u = <<27, 91, 70>> -> "end"
@@ -101,11 +107,13 @@ DecodeAll(bs) == LET r == FoldLeft(DecStep, [out |-> <<>>, pend |-> <<>>, bad |-
 \* hpos   the slot shown;  buf / caret its live text;  taint: buf is unknown
 \* pend   bytes of the incomplete unit;  ahead  bytes typed while no getLine runs;  crs  consecutive CRs while lost
 \* res    the line returned by the getLine that just ended;  lostret  it ended while lost
+\* u8     the locale is UTF-8 (LANG ends with .UTF-8); otherwise the Prompt takes every byte for a character: only ASCII
+\*        input is judged then (the statement is about UTF-8 terminals), bytes >= 0x80 count as ill-formed
 \* scrok  FALSE once a lost or tainted line may have written control characters to the terminal: from then on the
 \*        position of the prompt on the screen is unknown and the display is not judged any more (until reset)
 Init0 == [mode |-> "idle", sync |-> "ok", taint |-> FALSE, prompt |-> <<>>, buf |-> <<>>, caret |-> 0,
           slots |-> << <<>> >>, hpos |-> 1, hist |-> <<>>, pend |-> <<>>, ahead |-> <<>>, crs |-> 0, res |-> <<>>,
-          lostret |-> FALSE, scrok |-> TRUE]
+          lostret |-> FALSE, scrok |-> TRUE, u8 |-> TRUE]
 
 Ins(s, c) == IF s.taint THEN s
              ELSE [s EXCEPT !.buf = SubSeq(s.buf, 1, s.caret) \o <<c>> \o SubSeq(s.buf, s.caret + 1, Len(s.buf)),
@@ -151,28 +159,38 @@ Feed(s, b) ==
   IF s.sync = "dead" THEN {s}
   ELSE IF s.mode = "idle" THEN {[s EXCEPT !.ahead = Append(s.ahead, b)]}
   ELSE IF s.sync = "lost" THEN FeedLost(s, b)
-  ELSE LET u == s.pend \o <<b>> c == Classify(u) IN
+  ELSE LET u == s.pend \o <<b>> c == Cls(s.u8, u) IN
        IF c = "prefix" THEN {[s EXCEPT !.pend = u]}
        ELSE IF c = "bad" THEN FeedLost([s EXCEPT !.sync = "lost", !.pend = <<>>, !.crs = 0], b)
        ELSE {ApplyKey([s EXCEPT !.pend = <<>>], u)}
 FeedAll(S, bytes) == FoldLeft(LAMBDA acc, b : UNION {Feed(s, b) : s \in acc}, S, bytes)
 
-\* getLine(prompt) starts: the bytes typed ahead are consumed first.  (They pass through the Prompt's look-ahead buffer,
-\* whose treatment of ill-formed input differs from the direct path: a line lost there is not followed any further.)
+\* getLine(prompt) starts: it asks the terminal for the cursor position and reads everything typed ahead while it waits
+\* for the report; the typed-ahead bytes are consumed first.  The report travels in-band: typed-ahead input that is
+\* ill-formed or ends inside an escape sequence swallows it (no terminal protocol can tell them apart) - nothing is
+\* judged then.  (Type-ahead that ends inside a UTF-8 character is fine: the rest of the character arrives later.)
+FramePend(u8, bytes) ==
+  FoldLeft(LAMBDA acc, b : IF acc.bad THEN acc
+                           ELSE LET u == acc.pend \o <<b>> c == Cls(u8, u) IN
+                                IF c = "bad" THEN [acc EXCEPT !.bad = TRUE]
+                                ELSE IF c = "prefix" THEN [acc EXCEPT !.pend = u] ELSE [acc EXCEPT !.pend = <<>>],
+           [pend |-> <<>>, bad |-> FALSE], bytes)
 StartLine(s, p) ==
   IF s.sync = "dead" THEN {s}
   ELSE LET s0 == [s EXCEPT !.mode = "edit", !.taint = FALSE, !.prompt = p, !.buf = <<>>, !.caret = 0,
                            !.slots = Append(s.hist, <<>>), !.hpos = Len(s.hist) + 1, !.pend = <<>>, !.crs = 0, !.res = <<>>,
                            !.lostret = FALSE, !.ahead = <<>>,
                            !.hist = <<>>]          \* while editing the history lives in slots; hist is rebuilt at the end of the line
-       IN {IF o.sync = "lost" \/ o.lostret THEN [o EXCEPT !.sync = "dead"] ELSE o : o \in FeedAll({s0}, s.ahead)}
+           f == FramePend(s.u8, s.ahead)
+       IN IF f.bad \/ (f.pend # <<>> /\ f.pend[1] = 27) THEN {[s0 EXCEPT !.sync = "dead"]} ELSE FeedAll({s0}, s.ahead)
 
 \* ------------------------------------------------------------------------------------------------ observation
 \* e: event logged by the harness after the prompt went back to sleep or getLine returned
+ScreenJudged(o) == o.mode = "edit" /\ o.sync = "ok" /\ ~o.taint /\ o.pend = <<>> /\ o.scrok
 Match(o, e) ==
   \/ o.sync = "dead"
   \/ /\ (e.st = 1) <=> (o.mode = "idle")
-     /\ (o.mode = "edit" /\ o.sync = "ok" /\ ~o.taint /\ o.pend = <<>> /\ o.scrok) =>
+     /\ ScreenJudged(o) =>
           /\ Strip(e.text) = Strip(o.prompt \o o.buf)
           /\ e.cur = Len(o.prompt) + o.caret
           /\ e.pre = 1
